@@ -918,7 +918,7 @@ def check_from_graphs(w, sl, inputs, op):
                         continue
                     t_ = ttab.get(c)
                     o_ = otab.get(c)
-                    if t_ is not None and t_[2] is None:
+                    if t_ is not None and t_[2] is None and d is not None and o_ is not None and geom.same(d, o_):
                         continue
                     if (d is not None and d[2] is None) or (o_ is not None and o_[2] is None):
                         continue
